@@ -145,7 +145,20 @@ def normalise(text):
                     raise AnalysisError('%s:%d cannot normalise %r' % (REL, i + 1, stripped))
                 out[i] = '%s%s = %s' % (indent, mm.group(1), _expr(rest[eq + 1:].strip()))
             else:
-                out[i] = indent + 'pass'
+                # bare declaration(s): keep them visible as  a = b = __cdecl__('type')
+                segs = [x.strip() for x in _depth_split(rest) if x.strip()]
+                names, ctype = [], ''
+                for k, seg in enumerate(segs):
+                    words = [w_ for w_ in re.split(r'\s+(?![^\[]*\])', seg) if w_]
+                    if k == 0 and len(words) >= 2:
+                        ctype = ' '.join(words[:-1])
+                        names.append(words[-1].lstrip('*&'))
+                    else:
+                        names.append(words[-1].lstrip('*&'))
+                if all(re.match(r'^[A-Za-z_]\w*$', n_) for n_ in names) and names:
+                    out[i] = '%s%s = __cdecl__(%r)' % (indent, ' = '.join(names), ctype)
+                else:
+                    out[i] = indent + 'pass'
             i += 1
             continue
         if stripped.startswith('ctypedef '):
